@@ -374,6 +374,19 @@ func (it *fxInterp) run(fn *ssa.Function, st *fxState, onRet func(*fxState, *ssa
 			case *ssa.Phi:
 				continue
 			case *ssa.Store:
+				// memory.store[i] = b: a one-byte write that bypasses the Memory methods
+				if ia, isIA := x.Addr.(*ssa.IndexAddr); isIA {
+					if ld, isLd := ia.X.(*ssa.UnOp); isLd && ld.Op == token.MUL {
+						if t, f := FieldOf(ld.X); f == "store" && strings.HasSuffix(t, "vm.Memory") {
+							m := MemAccess{Method: "store[]", Off: it.operand(ia.Index), Size: Operand{Slot: -1, Add: 1, Const: true}, Pos: x.Pos(), Fn: fn, Instr: x}
+							k := fmt.Sprint(m.Method, m.Off, m.Size, x.Pos())
+							if !it.memSeen[k] {
+								it.memSeen[k] = true
+								it.res.Mem = append(it.res.Mem, m)
+							}
+						}
+					}
+				}
 				if p, ok := x.Addr.(*ssa.Parameter); ok && len(fn.Params) > 0 && p == fn.Params[0] && it.depth == 0 {
 					if bo, ok := x.Val.(*ssa.BinOp); ok && bo.Op == token.ADD {
 						if k, ok := evalConst(bo.Y, it.consts); ok {
